@@ -28,14 +28,25 @@ def _index(rng, n):
 def gen_feature(rng, kind, n):
     """returns (values list with None for missing, extra) for one feature"""
     nan_rate = rng.choice([0, 0, 0, 0.04, 0.15, 0.35])
+    extra = None
     if kind == "cont":
         scale = rng.choice([1, 8, 64])
         vals = [rng.randint(-400, 4000) / scale for _ in range(n)]
+        r = rng.random()
+        if r < 0.04:
+            vals = [rng.randint(1, 50) * 1e300 for _ in range(n)]           # very large magnitudes
+        elif r < 0.08:
+            vals = [rng.randint(1, 50) * 1e-300 for _ in range(n)]          # very small magnitudes
+        elif r < 0.12:
+            vals = [2 ** 53 + rng.randint(0, 40) for _ in range(n)]         # ints a double cannot hold
+            nan_rate = 0
+        elif r < 0.18:
+            vals = [float(np.float32(v)) for v in vals]; extra = "float32"
         if rng.random() < 0.08:
             # boundaries that differ only beyond 4 significant digits
             base, step = rng.choice([(202300, 1), (1 / 1024, 2.0 ** -30), (5000000, 64)])
             vals = [base + step * rng.randint(1, 12) for _ in range(n)]
-        extra = None
+            extra = None
     elif kind == "disc":
         k = rng.randint(2, 14)
         support = sorted(rng.sample(range(-3, 30), k))
@@ -129,7 +140,8 @@ def gen_dataset(rng, target="binary", n=None, kinds=None, with_dev=None):
 
     def frame(cols_):
         idx = _index(rng, len(next(iter(cols_.values()))))
-        X = pd.DataFrame({k: pd.Series(v, dtype=object if gens[k][0] in ("ord", "cat") else None) for k, v in cols_.items()})
+        X = pd.DataFrame({k: pd.Series(v, dtype=object if gens[k][0] in ("ord", "cat") else ("float32" if gens[k][1] == "float32" else None))
+                          for k, v in cols_.items()})
         X.index = idx
         return X
 
